@@ -171,7 +171,7 @@ def run(pid, tier, seed):
         cr = conc.run(scratch, pid, tier, seed)
         if cr:
             conc_sum = dict(cr["summary"], model_runs=cr["stats"])
-            verdict["bad"] += cr["bad"]
+            verdict["bad"] += conc.for_property(cr["bad"], pid)
             for c_, n_ in cr["cnt"].items():
                 verdict["cnt"][c_] = verdict["cnt"].get(c_, 0) + n_
             verdict["n"] += cr["n"]
